@@ -1041,3 +1041,121 @@ Proof.
        c_fields := []; c_groups := [[84; 101; 115; 116; 101; 114; 115]%N] |}.
   repeat split. discriminate.
 Qed.
+
+(* ---- the calendar hypothesis, local to the queried day --------------------------------------------------------- *)
+
+(* what the calendar-day sentence needs of the zone, about the QUERIED day d only: the instants before d's local midnight
+   are exactly those of earlier local days, and the instants of local day d are exactly the interval from d's midnight to
+   the next one.  It fails exactly when the zone skips or repeats local time across one of these two midnights (the
+   listed finding's days); a transition on any other day does not matter. *)
+Definition day_ok (c : calendar) (d : Z) : Prop :=
+  (forall t, local_day c t < d <-> t < midnight c d)%Z
+  /\ (forall t, local_day c t = d <-> midnight c d <= t < midnight c (d + 1))%Z.
+
+Lemma calendar_ok_day_ok : forall c d, calendar_ok c -> day_ok c d.
+Proof.
+  intros c d Hcal. split.
+  - intros t. pose proof (before_day c t Hcal d) as B. tauto.
+  - intros t. destruct Hcal as [_ Hld]. apply Hld.
+Qed.
+
+Lemma date_by_calendar_day_local : forall (cal : calendar) e r qp pt key v d t,
+  day_ok cal d ->
+  resolve_value_type r pt key = Some FDatetime -> v <> [] ->
+  qp pt key = [VTime t] ->
+  e_day_start e v = Some (midnight cal d) ->
+  (midnight cal (d + 1) = midnight cal d + day_ns)%Z ->
+  eval_cond e r qp pt key OpLt v = RBool (local_day cal t <? d)%Z
+  /\ eval_cond e r qp pt key OpEq v = RBool (local_day cal t =? d)%Z
+  /\ eval_cond e r qp pt key OpGt v = RBool (d <? local_day cal t)%Z.
+Proof.
+  intros cal e r qp pt key v d t [HB HE] Hty Hv Hq Hday H24.
+  destruct (date_single e r qp pt key v Hty Hv t Hq) as [S1 [S2 S3]].
+  unfold value_day_start in *. rewrite Hday in *. rewrite S1, S2, S3. rewrite <- H24.
+  pose proof (HB t) as B0. pose proof (HE t) as E0. pose proof day_ns_pos as Dp.
+  repeat split; f_equal.
+  - destruct (Z.ltb_spec t (midnight cal d)), (Z.ltb_spec (local_day cal t) d); auto; lia.
+  - destruct (Z.leb_spec (midnight cal d) t), (Z.ltb_spec t (midnight cal (d + 1))), (Z.eqb_spec (local_day cal t) d);
+      simpl; auto; lia.
+  - destruct (Z.leb_spec (midnight cal (d + 1)) t), (Z.ltb_spec d (local_day cal t)); auto; lia.
+Qed.
+
+Lemma date_by_calendar_day_local_on_contact : forall (cal : calendar) e r c pt key v d t,
+  day_ok cal d ->
+  resolve_value_type r pt key = Some FDatetime -> v <> [] ->
+  query_property c pt key = [VTime t] ->
+  e_day_start e v = Some (midnight cal d) ->
+  (midnight cal (d + 1) = midnight cal d + day_ns)%Z ->
+  eval_contact e r (Cond pt key OpLt v) c = RBool (local_day cal t <? d)%Z
+  /\ eval_contact e r (Cond pt key OpEq v) c = RBool (local_day cal t =? d)%Z
+  /\ eval_contact e r (Cond pt key OpGt v) c = RBool (d <? local_day cal t)%Z.
+Proof.
+  intros cal e r c pt key v d t Hd Hty Hv Hq Hday H24.
+  exact (date_by_calendar_day_local cal e r (query_property c) pt key v d t Hd Hty Hv Hq Hday H24).
+Qed.
+
+(* A zone like America/St_Johns in 2007: one minute after the midnight that begins local day 1 the clocks are set back
+   an hour, so local day 0 comes back for 59 minutes: day 0 is not an interval and [calendar_ok] fails for the zone as
+   a whole — yet every day away from that transition satisfies [day_ok] and is 24 hours long. *)
+Definition minute_ns : Z := 60000000000.
+
+Definition cal_back : calendar := {|
+  midnight := fun d => (if d <=? 1 then d * day_ns else d * day_ns + hour_ns)%Z;
+  local_day := fun t => (if t <? day_ns + minute_ns then t / day_ns
+                         else if t <? day_ns + hour_ns then 0
+                         else (t - hour_ns) / day_ns)%Z
+|}.
+
+Lemma cal_back_not_calendar_ok : ~ calendar_ok cal_back.
+Proof.
+  intros [_ H]. specialize (H 0%Z (day_ns + minute_ns)%Z). destruct H as [H _].
+  assert (E : local_day cal_back (day_ns + minute_ns) = 0%Z) by reflexivity.
+  specialize (H E). cbn [cal_back midnight] in H. vm_compute in H. destruct H as [_ H]. discriminate.
+Qed.
+
+Lemma cal_back_day_ok : forall d, (3 <= d)%Z ->
+  day_ok cal_back d /\ (midnight cal_back (d + 1) = midnight cal_back d + day_ns)%Z.
+Proof.
+  intros d Hd. unfold day_ok, cal_back. cbn [midnight local_day].
+  replace (d <=? 1)%Z with false by (symmetry; apply Z.leb_gt; lia).
+  replace (d + 1 <=? 1)%Z with false by (symmetry; apply Z.leb_gt; lia).
+  split; [split|].
+  - intros t.
+    pose proof (Z.div_mod t day_ns ltac:(unfold day_ns; lia)) as D1.
+    pose proof (Z.mod_pos_bound t day_ns day_ns_pos) as M1.
+    pose proof (Z.div_mod (t - hour_ns) day_ns ltac:(unfold day_ns; lia)) as D2.
+    pose proof (Z.mod_pos_bound (t - hour_ns) day_ns day_ns_pos) as M2.
+    unfold day_ns, hour_ns, minute_ns in *.
+    destruct (Z.ltb_spec t (86400000000000 + 60000000000)), (Z.ltb_spec t (86400000000000 + 3600000000000)); lia.
+  - intros t.
+    pose proof (div_iff t day_ns d day_ns_pos) as D1.
+    pose proof (div_iff (t - hour_ns) day_ns d day_ns_pos) as D2.
+    unfold day_ns, hour_ns, minute_ns in *.
+    destruct (Z.ltb_spec t (86400000000000 + 60000000000)), (Z.ltb_spec t (86400000000000 + 3600000000000)); lia.
+  - unfold day_ns, hour_ns. lia.
+Qed.
+
+(* the contact side of the cost bound: a stored number that flows.ReadContact accepts (model: stored_number_ok, compared
+   with the real reader on every run) has an exponent within +-max(1000, length of its stored text); together with
+   validated_number_bounded the two numbers Decimal.Cmp rescales are at most 1000 + max(1000, len) decimal places apart *)
+Lemma stored_number_bounded : forall len ex, stored_number_ok len ex = true ->
+  (- Z.max 1000 (Z.of_N len) <= ex <= Z.max 1000 (Z.of_N len))%Z.
+Proof.
+  intros len ex H. unfold stored_number_ok, max_number_value_exponent in H.
+  apply andb_prop in H. destruct H as [A B]. apply Z.leb_le in A. apply Z.leb_le in B. split; assumption.
+Qed.
+
+Lemma rescale_distance_bounded : forall e r pt key o v len ex,
+  validate_cond e r pt key o v = None -> resolve_value_type r pt key = Some FNumber ->
+  ((is_eq o || is_ne o) && is_nil v = false) -> stored_number_ok len ex = true ->
+  (Z.abs (ex - d_e (value_as_number v)) <= 1000 + Z.max 1000 (Z.of_N len))%Z.
+Proof.
+  intros e r pt key o v len ex Hv Hty Hne Hs.
+  destruct (validated_number_bounded e r pt key o v Hv Hty Hne) as (d & _ & -> & Hd).
+  pose proof (stored_number_bounded len ex Hs) as He. unfold max_number_value_exponent in Hd. lia.
+Qed.
+
+Example stored_number_examples :
+  stored_number_ok 6 1000 = true /\ stored_number_ok 6 1001 = false /\ stored_number_ok 1204 (-1202) = true
+  /\ stored_number_ok 11 300000000 = false.
+Proof. repeat split. Qed.
